@@ -346,7 +346,7 @@ fn case_json(c: &BCase) -> Value {
 }
 
 pub fn run(cfg: &RunCfg) -> (PropMeta, ShardOut, Map<String, Value>) {
-    let n = cfg.n(20_000, 1_000_000);
+    let n = cfg.n(20_000, 600_000);
     let per = (n as usize + cfg.threads - 1) / cfg.threads;
     let out = shards(cfg.threads, |shard| {
         let mut out = ShardOut::default();
